@@ -440,4 +440,18 @@ theorem validTriangles_ok (n : Nat) (ts : Array (Facet K)) (h : AllOk n ts) (t :
   rw [hta] at this
   exact ⟨this 0, this 1, this 2⟩
 
+theorem mem_validTriangles (ts : Array (Facet K)) (t : T3) :
+    t ∈ (validTriangles ts).toList ↔ ∃ a, a < ts.size ∧ (tAt ts a).valid = true ∧ t = (tAt ts a).pts := by
+  unfold validTriangles
+  simp only [Array.toList_map, List.mem_map, Array.toList_filter, List.mem_filter]
+  constructor
+  · rintro ⟨f, ⟨hf, hv⟩, rfl⟩
+    obtain ⟨a, ha, rfl⟩ := List.getElem_of_mem hf
+    have ha' : a < ts.size := by simpa using ha
+    have hta : tAt ts a = ts.toList[a] := by unfold tAt; simp [ha']
+    exact ⟨a, ha', by rw [hta]; exact hv, by rw [hta]⟩
+  · rintro ⟨a, ha, hv, rfl⟩
+    have hta : tAt ts a = ts[a] := by unfold tAt; simp [ha]
+    exact ⟨ts[a], ⟨by simp, by rw [← hta]; exact hv⟩, by rw [hta]⟩
+
 end C12.H3
